@@ -19,7 +19,7 @@ func init() {
 	register(&CheckDef{
 		ID:    "C11",
 		Level: "exploration",
-		Rule: "every ordered mix of <=3 (quick) / <=4 (thorough) tokens, each slot drawn from: named with automatic number (plain / tagged), named with explicit number from {1,2,3,43,97,257,1000}, named declared only by %left, named declared twice (%token <t> X and %token X n), character literal from {'+','a','{'} declared by %token / only by %left / only used in a rule; explicit numbers pairwise distinct and distinct from the literal codes present; in-process: every terminal's code (literal = character code, explicit kept, all distinct, none -1); generated Go and TypeScript (every mix in-process, a fixed stride of them compiled/loaded): `const NAME = n` lines and translate(c) evaluated for every c in [-2, max+2]; " +
+		Rule: "every ordered mix of <=3 (quick) / <=4 (thorough) tokens, each slot drawn from: named with automatic number (plain / tagged), named with explicit number from {1,2,3,43,97,257,1000}, named declared only by %left, named declared twice (%token <t> X and %token X n, n large or small), named introduced by %left and numbered by a later %token line, character literal from {'+','a','{'} declared by %token / only by %left / only used in a rule; explicit numbers pairwise distinct and distinct from the literal codes present; in-process: every terminal's code (literal = character code, explicit kept, all distinct, none -1); generated Go and TypeScript (every mix in-process, a fixed stride of them compiled/loaded): `const NAME = n` lines and translate(c) evaluated for every c in [-2, max+2]; " +
 			"non-trivial = mix with at least two tokens; distinct = distinct mixes",
 		Assumptions: []string{
 			"the proviso of the statement: the user's explicit numbers are distinct from each other and from the codes of the literals used",
@@ -46,7 +46,7 @@ type c11Case struct {
 }
 
 func c11Menu() []tokSlot {
-	m := []tokSlot{{Kind: "auto"}, {Kind: "tagged"}, {Kind: "preconly"}, {Kind: "twice", Num: 300}}
+	m := []tokSlot{{Kind: "auto"}, {Kind: "tagged"}, {Kind: "preconly"}, {Kind: "twice", Num: 300}, {Kind: "twice", Num: 4}, {Kind: "precthennum", Num: 5}}
 	for _, n := range []int{1, 2, 3, 43, 97, 257, 1000} {
 		m = append(m, tokSlot{Kind: "num", Num: n})
 	}
@@ -62,9 +62,9 @@ func (c *c11Case) valid() bool {
 	chars := map[byte]bool{}
 	for i, s := range c.Slots {
 		switch s.Kind {
-		case "num", "twice":
+		case "num", "twice", "precthennum":
 			n := s.Num
-			if s.Kind == "twice" {
+			if s.Kind == "twice" && s.Num >= 100 {
 				n += i
 			}
 			if nums[n] {
@@ -91,6 +91,7 @@ func (c *c11Case) spec() (*gram.Spec, map[string]int, []string) {
 	s := &gram.Spec{Start: "S", HasUnion: true, Union: " v int "}
 	want := map[string]int{}
 	var order []string
+	var later []gram.TokDecl
 	rule := gram.Rule{L: "S"}
 	for i, sl := range c.Slots {
 		name := fmt.Sprintf("T%d", i+1)
@@ -106,8 +107,16 @@ func (c *c11Case) spec() (*gram.Spec, map[string]int, []string) {
 			s.Tokens = append(s.Tokens, gram.TokDecl{Name: name, Num: sl.Num})
 			want[name] = sl.Num
 		case "twice":
-			s.Tokens = append(s.Tokens, gram.TokDecl{Name: name, Tag: "v"}, gram.TokDecl{Name: name, Num: sl.Num + i})
-			want[name] = sl.Num + i
+			n := sl.Num
+			if n >= 100 {
+				n += i
+			}
+			s.Tokens = append(s.Tokens, gram.TokDecl{Name: name, Tag: "v"}, gram.TokDecl{Name: name, Num: n})
+			want[name] = n
+		case "precthennum": // introduced by %left, numbered by a later %token line
+			s.Prec = append(s.Prec, gram.PrecLevel{Assoc: "left", Toks: []string{name}})
+			later = append(later, gram.TokDecl{Name: name, Num: sl.Num})
+			want[name] = sl.Num
 		case "preconly":
 			s.Tokens = append(s.Tokens, gram.TokDecl{Name: name, NoTokenLine: true})
 			s.Prec = append(s.Prec, gram.PrecLevel{Assoc: "left", Toks: []string{name}})
@@ -128,6 +137,7 @@ func (c *c11Case) spec() (*gram.Spec, map[string]int, []string) {
 		rule.R = append(rule.R, name)
 	}
 	s.Rules = []gram.Rule{rule}
+	s.LateTokens = later
 	return s, want, order
 }
 
